@@ -4,9 +4,10 @@
 //
 // One source, several translation units: props/registry.d/C04.json builds this file several times with -DC04_PART=<n>
 // (a TU with all 40 configurations would take minutes to compile); every part instantiates a slice of the table below.
-//   part 0: char x {0,1,7,15}       part 1: char x {16,31,255,256}
-//   parts 2..5: wchar_t / char8_t / char16_t / char32_t x {7,15,16}
-//   parts 6..9 (thorough only): the remaining capacities {0,1,31,255,256} of wchar_t / char8_t / char16_t / char32_t
+//   part 0: char x {0,1,7,15}       part 1: char x {16,31,255,256}                      (quick + thorough)
+//   parts 2..5: wchar_t / char8_t / char16_t / char32_t x {7,15,16}                       (quick only)
+//   parts 6..9: wchar_t / char8_t / char16_t / char32_t x all eight capacities            (thorough only)
+// so each tier builds six translation units.
 // The registry also passes -O0: 87 % of the compile time of this file is optimisation + code generation of the
 // sanitizer-instrumented instantiations, and -O0 halves it (the run time of the harness is small either way).
 // The configuration id inside a case (OpsCase::cfg) is global: cfg = 8*char_index + capacity_index.
@@ -26,6 +27,10 @@
 #ifndef C04_PART
     #define C04_PART 0
 #endif
+
+// Keep the resident set of a harness process small (the exact-size argument buffers are freed at once; ASan's default
+// 256 MB quarantine would keep all of them alive).  Options given in ASAN_OPTIONS by bin/check still take precedence.
+extern "C" const char* __asan_default_options() { return "quarantine_size_mb=16:thread_local_quarantine_size_kb=64:malloc_context_size=4"; }
 
 namespace {
 
@@ -52,7 +57,7 @@ auto run_cfg(OpsCase const& k, int stats) -> Result
 constexpr std::size_t caps[8]            = {0, 1, 7, 15, 16, 31, 255, 256};
 constexpr char const* const char_names[5] = {"char", "wchar_t", "char8_t", "char16_t", "char32_t"};
 
-// capacities {7,15,16} of one character type (quick + thorough) / the remaining five capacities (thorough only)
+// capacities {7,15,16} of one character type (quick) / all eight capacities (thorough)
 template <typename Char, bool MidSet>
 auto pick_cap(std::uint32_t ci) -> RunFn
 {
@@ -68,10 +73,12 @@ auto pick_cap(std::uint32_t ci) -> RunFn
         switch (ci) {
         case 0: return &run_cfg<Char, 0>;
         case 1: return &run_cfg<Char, 1>;
+        case 2: return &run_cfg<Char, 7>;
+        case 3: return &run_cfg<Char, 15>;
+        case 4: return &run_cfg<Char, 16>;
         case 5: return &run_cfg<Char, 31>;
         case 6: return &run_cfg<Char, 255>;
-        case 7: return &run_cfg<Char, 256>;
-        default: return nullptr;
+        default: return &run_cfg<Char, 256>;
         }
     }
 }
